@@ -6,6 +6,7 @@
    mdtraj.  The claim is therefore "proof, partial". *)
 From Coq Require Import List ZArith Permutation.
 From EV Require Import PySlice Store StoreProofs StoreLoadProofs StoreRaProofs.
+From EV Require Import StoreBase StoreGen StoreGenProofs.
 Import ListNotations.
 Open Scope nat_scope.
 
@@ -206,3 +207,141 @@ Proof.
   eapply perm_trans; [apply perm_swap|]. apply perm_skip. apply Permutation_refl.
 Qed.
 Print Assumptions c15_example_parallel.
+
+(* ===================================================================================== round 2
+   The scalar expressions, slices and loop bodies that carry the property are regenerated from the
+   CURRENT sources by translator/tr_store.py (Gen/StoreGen.v; fail-closed: any other statement shape
+   is rejected) and proved equal to the model's, so the theorems above speak about what
+   enspara/ra/ra.py, enspara/util/load.py and enspara/mpi/io.py say now. *)
+(* --- ra.save: `len(str(len(array.lengths))) + 1` and `tag + '_' + str(i).zfill(n_zeros)` are the
+   model's width and key *)
+Theorem c15_gen_key_is_model : forall tag n i,
+  gen_key tag (Z.of_nat i) (gen_n_zeros (Z.of_nat n)) = key tag (n_zeros n) i.
+Proof. exact gen_key_eq. Qed.
+Print Assumptions c15_gen_key_is_model.
+
+(* keys_sorted for the generated name expression, every row count *)
+Theorem c15_gen_keys_sorted : forall tag n i j, i < j -> j < n ->
+  lex_ltb (gen_key tag (Z.of_nat i) (gen_n_zeros (Z.of_nat n)))
+          (gen_key tag (Z.of_nat j) (gen_n_zeros (Z.of_nat n))) = true.
+Proof. exact gen_keys_lt. Qed.
+Print Assumptions c15_gen_keys_sorted.
+
+(* the sorted listing of the generated names is the row order *)
+Theorem c15_gen_listing_is_row_order : forall tag n l,
+  Permutation l (map (fun i => gen_key tag (Z.of_nat i) (gen_n_zeros (Z.of_nat n))) (seq 0 n)) ->
+  sort_keys l = map (fun i => gen_key tag (Z.of_nat i) (gen_n_zeros (Z.of_nat n))) (seq 0 n).
+Proof. exact gen_listing_is_row_order. Qed.
+Print Assumptions c15_gen_listing_is_row_order.
+
+(* --- ra.load: stride_len for the generated expressions: the length `(shape[0]+stride-1)//stride`
+   announced up front is the length of the slice `node[::stride]` read afterwards (start None, stop
+   None, step stride: a read that restarts the stride phase is a different term) *)
+Theorem c15_gen_stride_len : forall (s : Z) (r : list elem), (1 <= s)%Z ->
+  zlen (gen_read_row s r) = gen_load_len (zlen r) s.
+Proof. exact (@gen_stride_len elem). Qed.
+Print Assumptions c15_gen_stride_len.
+
+Theorem c15_gen_read_is_model : forall (s : Z) (r : list elem),
+  gen_read_row s r = strided s r /\ gen_single_read s r = strided s r /\ gen_npy_read s r = strided s r.
+Proof. exact (fun s r => conj eq_refl (conj eq_refl eq_refl)). Qed.
+Print Assumptions c15_gen_read_is_model.
+
+Theorem c15_gen_load_len_is_model : forall n s, (1 <= s)%Z ->
+  gen_load_len (Z.of_nat n) s = Z.of_nat (ceil_len n s)
+  /\ gen_h5_global_len (Z.of_nat n) s = Z.of_nat (ceil_len n s)
+  /\ gen_npy_global_len (Z.of_nat n) s = Z.of_nat (ceil_len n s).
+Proof. exact (fun n s H => conj (gen_load_len_eq n s H) (conj (gen_load_len_eq n s H) (gen_load_len_eq n s H))). Qed.
+Print Assumptions c15_gen_load_len_is_model.
+
+(* the single-key branch is taken exactly for a one-element key list *)
+Theorem c15_gen_single_key_branch : forall (ks : list str),
+  gen_single_key_test (zlen ks) = true <-> exists k, ks = [k].
+Proof. exact (@gen_single_key_test_eq str). Qed.
+Print Assumptions c15_gen_single_key_branch.
+
+(* the generated fill loops (start = 0; end = start + len(node); concat[start:end] = node; start = end)
+   are the model's, and on a zeroed buffer of the announced size give the concatenation of the
+   strided rows *)
+Theorem c15_gen_fill_is_model : forall (s : Z) (rows : list (list elem)) buf,
+  gen_ra_fill s rows buf = fill_from 0 (map (strided s) rows) buf
+  /\ gen_npy_fill s rows buf = fill_from 0 (map (strided s) rows) buf.
+Proof. exact (fun s rows buf => conj (gen_ra_fill_eq s rows buf) (gen_npy_fill_eq s rows buf)). Qed.
+Print Assumptions c15_gen_fill_is_model.
+
+Theorem c15_gen_fill_concat : forall (s : Z) (rows : list (list elem)) (z : elem), (1 <= s)%Z ->
+  gen_ra_fill s rows (repeat z (Z.to_nat (zsum (map (fun r => gen_load_len (zlen r) s) rows))))
+  = Some (concat (map (gen_read_row s) rows)).
+Proof. exact (@gen_ra_fill_concat elem). Qed.
+Print Assumptions c15_gen_fill_concat.
+
+(* --- util/load.py: math.ceil(n_frames / stride) is the number of frames of frames[::stride] *)
+Theorem c15_gen_sound_len : forall (s : Z) (frames : list elem), (1 <= s)%Z ->
+  gen_sound_len (zlen frames) s = zlen (gen_read_row s frames).
+Proof. exact (@gen_sound_is_strided_len elem). Qed.
+Print Assumptions c15_gen_sound_len.
+
+(* lengths are collected in FILE order: the ordered starmap over the files without a frame keyword
+   followed by `lengths.insert(i, 1)` is one length per file, in the order of the files *)
+Theorem c15_gen_lengths_in_file_order : forall files,
+  (forall t, In t files -> (1 <= t_stride t)%Z) ->
+  gen_lac_lengths (map spec_of files) = map (fun t => Z.of_nat (sounded t)) files.
+Proof. exact gen_lac_lengths_eq. Qed.
+Print Assumptions c15_gen_lengths_in_file_order.
+
+(* [sum(lengths[0:i]) for i in range(len(lengths))] are the model's prefix sums *)
+Theorem c15_gen_offsets_are_prefix_sums : forall lengths,
+  gen_offsets (map Z.of_nat lengths) = map Z.of_nat (offsets lengths).
+Proof. exact gen_offsets_eq. Qed.
+Print Assumptions c15_gen_offsets_are_prefix_sums.
+
+(* windows_disjoint_cover for the generated offsets and the generated window arr[position :
+   position+len(xyz)]: in file order the cells addressed are 0, 1, ..., total-1, each exactly once *)
+Theorem c15_gen_windows_disjoint_cover : forall (blocks : list (list elem)),
+  flat_map gen_job_cells (combine (gen_offsets (map (@zlen elem) blocks)) blocks)
+  = py_range0 (zsum (map (@zlen elem) blocks)).
+Proof. exact gen_windows_cover. Qed.
+Print Assumptions c15_gen_windows_disjoint_cover.
+
+(* ... hence the generated jobs, completing in any order, leave the in-order concatenation *)
+Theorem c15_gen_concat_order_indep : forall (blocks : list (list elem)) (z : elem) sched,
+  Permutation sched (seq 0 (length blocks)) ->
+  gen_run_jobs (pick_jobs (combine (gen_offsets (map (@zlen elem) blocks)) blocks) sched)
+               (repeat z (Z.to_nat (zsum (map (@zlen elem) blocks))))
+  = Some (concat blocks).
+Proof. exact gen_concat_order_indep. Qed.
+Print Assumptions c15_gen_concat_order_indep.
+
+(* --- mpi/io.py: all four `X[mpi.rank()::mpi.size()]` are one term, the model's stripe *)
+Theorem c15_gen_stripe_is_model : forall rank size (l : list elem),
+  gen_stripe (Z.of_nat rank) (Z.of_nat size) l = stripe rank size l.
+Proof. exact (@gen_stripe_eq elem). Qed.
+Print Assumptions c15_gen_stripe_is_model.
+
+(* non-vacuity: 101 rows (width 4), names as generated; three files 3/1/2, workers finishing 2,0,1 *)
+Example c15_example_generated :
+  gen_n_zeros 101 = 4%Z
+  /\ gen_key [97; 114; 114] 11 (gen_n_zeros 101) = [97; 114; 114; 95; 48; 48; 49; 49]
+  /\ gen_load_len 7 3 = 3%Z /\ gen_sound_len 7 3 = 3%Z
+  /\ gen_offsets [3; 1; 2]%Z = [0; 3; 4]%Z
+  /\ gen_lac_lengths [(5, 2, false); (5, 1, true); (2, 1, false)]%Z = [3; 1; 2]%Z
+  /\ gen_run_jobs (pick_jobs (combine (gen_offsets [3; 1; 2]%Z) [[[1%Z]; [2%Z]; [3%Z]]; [[9%Z]]; [[7%Z]; [8%Z]]]) [2; 0; 1])
+                  (repeat [0%Z] 6)
+     = Some [[1%Z]; [2%Z]; [3%Z]; [9%Z]; [7%Z]; [8%Z]].
+Proof. vm_compute. repeat split; reflexivity. Qed.
+Print Assumptions c15_example_generated.
+
+(* every world size: item i of the striped list is held by rank i mod size, at place i / size of
+   its stripe (so the ranks' stripes together hold every row / file, none twice at one place) *)
+Theorem c15_gen_stripe_covers : forall (d : elem) size (l : list elem) i, 1 <= size -> i < length l ->
+  nth (i / size) (gen_stripe (Z.of_nat (i mod size)) (Z.of_nat size) l) d = nth i l d.
+Proof. exact gen_stripe_nth. Qed.
+Print Assumptions c15_gen_stripe_covers.
+
+(* x[rank::size] for every rank and size: the items rank, rank+size, ...; there are
+   ceil((len - rank) / size) of them *)
+Theorem c15_stripe_spec : forall (d : elem) rank size (l : list elem), 1 <= size ->
+  stripe rank size l
+  = map (fun k => nth (rank + k * size) l d) (seq 0 (ceil_len (length l - rank) (Z.of_nat size))).
+Proof. exact (@stripe_spec elem). Qed.
+Print Assumptions c15_stripe_spec.
